@@ -41,6 +41,9 @@ var exprPool = []string{
 	"@(sum(array(1, \"a\")))", "@(concat(contact.urns, contact.groups))", "@(is_error(1/0))", "@(boolean(input.text))",
 }
 
+var urnRefs = []string{"@contact.urn", "@urns.tel", "@contact", "@contact.urns", "@(format_urn(contact.urn))", "@input.urn", "@parent.urns.tel", "@child.urns", "@urns",
+	"@(urn_parts(contact.urn).path)", "@(default(urns.facebook, urns.telegram))", "@run", "@(json(contact.urns))", "@parent.contact.urn", "@(contact.urns[0])"}
+var parentRefs = []string{"@parent", "@parent.results.color", "@parent.contact.name", "@parent.fields.age", "@parent.status", "@parent.results", "@parent.run.uuid", "@parent.flow.name", "@(json(parent))", "@parent.results.answer.category"}
 var webhookRefs = []string{"@webhook", "@webhook.json", "@webhook.json.ok", "@webhook.json.count", "@webhook.status", "@webhook.json.name", "@webhook.headers", "@(json(webhook))", "@webhook.json.items[0].tag"}
 var legacyRefs = []string{"@legacy_extra", "@legacy_extra.count", "@legacy_extra.name", "@legacy_extra.ok"}
 
@@ -53,6 +56,14 @@ func (g *G) tmpl(withWebhook bool) string {
 		wts := []int{4, 6, 3, 1, 1}
 		if g.P.AllowWebhookAfter {
 			wts = []int{4, 6, 3, 3, 2} // the legacy ways of reading a webhook response are what is under test
+		}
+		if g.parentFlavor && t.Chance("parentref", 1, 3) {
+			parts = append(parts, parentRefs[t.Pick("whichparentref", len(parentRefs))])
+			continue
+		}
+		if g.P.URNRefs && t.Chance("urnref", 1, 5) {
+			parts = append(parts, urnRefs[t.Pick("whichurnref", len(urnRefs))])
+			continue
 		}
 		switch t.Weighted("tpart", wts...) {
 		case 0:
